@@ -374,3 +374,37 @@ def decide_whole(data, flag):
     if len(data) == 1 or flag:
         return 2
     return 3 if len(data) == 1 else 4
+
+
+class Fmt(object):
+    def format(self, version, wipe, data):
+        import struct
+        from struct import pack as _p
+        status = self._format(version, wipe)
+        self._write(self, data)
+        if status is True:
+            self._ndef = None
+        if status is not False and self._ok(version):
+            return 1 + len(data)
+        return 0 if status is None else -1
+
+
+class Over(Fmt):
+    def protect(self, password, read_protect, protect_from):
+        args = (password, read_protect, protect_from)
+        return super(Over, self).protect(*args)
+
+    def ndef(self):
+        nd = self.NDEF(self)
+        if nd.has_changed:
+            return 1
+        return self._mk(None, b"ab") + self._mk(3, None)
+
+
+class Stubs(object):
+    def run(self, x):
+        a = self._rd(x)
+        b = self._act(x, a)
+        idm, pmm = self._poll(x & 3)
+        n = 0 if a is None else len(a)
+        return n + (b if b is not None else -7) + len(idm) * 16 + len(pmm)
